@@ -29,4 +29,6 @@ def run(tier):
     preempt.registration_rule(run, fx["core/preemptive"], "C08-MONITOR-ONLY-UNIT")
     # clauses added for the wave-2 seeds (rules/wave2.py; DESIGN 12a)
     wave3.no_exit_before_yield_rule(run, f, "C08-NO-EXIT-BEFORE-YIELD")
+    # clauses added for the wave-2 seeds (rules/wave2.py; DESIGN 12a)
+    wave3.suspender_popped_rule(run, f, "C08-SUSPENDER-POPPED")
     return run.finish()
